@@ -1314,6 +1314,7 @@ func pkgInited(p string) bool {
 	defer initedMu.Unlock()
 	return initedPkgs[p]
 }
+
 var uninitReads sync.Map
 var forkProf map[string]int
 var forkProfMu sync.Mutex
